@@ -62,6 +62,17 @@ class Site:
     @property
     def key(self):
         b = self.body.nname
+        # a closure of a helper that was spliced into exactly one known function is keyed as a closure of that function
+        body = self.body
+        prog = body.prog
+        chain = []
+        while body is not None and body.kind == "Closure":
+            chain.append(body.nname.rsplit("::", 1)[-1])
+            body = prog.by_id.get(body.parent)
+        if body is not None and chain:
+            hosts = getattr(body, "inlined_into", None) or []
+            if len(hosts) == 1 and hosts[0] in prog.by_id:
+                b = "::".join([prog.by_id[hosts[0]].nname] + list(reversed(chain)))
         for pre in ("melstf::state::", "melstf::", "melvm::", "tip911_stakeset::"):
             if b.startswith(pre):
                 b = b[len(pre):]
@@ -200,6 +211,8 @@ def auto_discharge(prog, site):
         nm = site.expr[1]
         ops = site.operands
         if nm.endswith("Ratio::new") and len(ops) == 2:
+            if _const(ops[1]) not in (None, 0):
+                return ("D1", "denominator is the non-zero constant %s" % sig(ops[1]))
             g = _guarded_nonzero(b, site.bb, ops[1])
             if g:
                 return ("D6", g)
@@ -318,6 +331,18 @@ def _guarded_nonzero(b, bb, d):
             sl = sig(q.novers(q.unwrap0(L)))
         if sl == sd and _const(R) is not None and ((o == "Gt" and _const(R) >= 0) or (o == "Ne" and _const(R) == 0) or (o == "Ge" and _const(R) >= 1)):
             return "divisor dominated by %s %s %d" % (sd[:40], o, _const(R))
+    # `match x { 0 => .., n => site }`: an integer switch on the divisor itself whose 0-arm does not lead to the site
+    for sb, t in b.iter_terms("switch"):
+        if not b.dominates(sb, bb) or sb == bb:
+            continue
+        dv = b.rec_operand(t["discr"], sb, "T")
+        if dv[0] in ("discr",) or sig(q.novers(q.unwrap0(dv))) != sd:
+            continue
+        zero = [tg for v, tg in t["targets"] if str(v) == "0"]
+        if zero and t["otherwise"] is not None and zero[0] != t["otherwise"]:
+            reach0 = b.reachable(zero[0], removed=[sb])
+            if bb not in reach0:
+                return "divisor switched on: the arm for 0 does not reach the division"
     return None
 
 
